@@ -206,6 +206,11 @@ for _n in ("squeeze", "reshape", "broadcast_in_dim", "slice", "rev", "transpose"
     RULES[_n] = _simple_route(_n)
 
 
+@rule("stack")
+def _stack(*xs, axis, **k):
+    return np.stack([to_obj(x) for x in xs], axis=axis)
+
+
 @rule("concatenate")
 def _concatenate(*xs, dimension, **k):
     return np.concatenate([to_obj(x) for x in xs], axis=dimension)
